@@ -58,7 +58,7 @@ theorem pur_getJavadoc (n : Nat) : Pur env (Actions.getJavadoc n) (fun _ => True
   refine Pur.bind (P := fun _ => True) (fun _ => ⟨rfl, trivial⟩) (fun e _ => ?_)
   cases Javadoc.getJavadoc e.text n with
   | ok d => exact Pur.pure _ trivial
-  | error m => exact Pur.bad _ _ (by decide) (by decide)
+  | error m => exact Pur.bad _ _ (by decide) (by decide) (by decide)
 
 theorem pur_asList {t : VTy} {v : Val} (h : HasTy E (.list t) v) : Pur env (asList v) (fun l => ∀ x ∈ l, HasTy E t x) := by
   obtain ⟨l, rfl, hl⟩ := (hasTy_list E t v).mp h; exact Pur.pure _ hl
@@ -88,6 +88,16 @@ theorem pur_optTokStr {v : Val} (h : HasTy E (.opt .tok) v) : Pur env (optTokStr
   cases o with
   | none => exact Pur.pure _ trivial
   | some t => exact Pur.map (pur_asTok (ho t rfl)) (fun _ _ => trivial)
+
+theorem pur_optTokStr_d {v : Val} (h : HasTy E (.opt .dtok) v) :
+    Pur env (optTokStr v) (fun o => o = none ∨ o = some "in" ∨ o = some "out" ∨ o = some "inout") := by
+  unfold optTokStr
+  refine Pur.bind (pur_asOpt h) (fun o ho => ?_)
+  cases o with
+  | none => exact Pur.pure _ (Or.inl rfl)
+  | some t =>
+    obtain ⟨x, rfl, hx⟩ := (hasTy_dtok E t).mp (ho t rfl)
+    exact Pur.map (P := fun s => s = x) (Pur.pure x rfl) (by intro a ha; subst ha; rcases hx with rfl | rfl | rfl <;> simp)
 
 theorem pur_joinToks {v : Val} (h : HasTy E (.list .tok) v) : Pur env (joinToks v) (fun _ => True) := by
   unfold joinToks
@@ -152,8 +162,8 @@ theorem PurE.bind {α β} {P : α → Prop} {Q : β → Prop} {x : M α} {f : α
 theorem PurE.pushDiag (d : Diag) : PurE env (pushDiag d) (fun _ => True) := fun ds => ⟨⟨[d], rfl⟩, trivial⟩
 
 theorem PurE.pure {α} {P : α → Prop} (a : α) (h : P a) : PurE env (pure a : M α) P := PurE.of_pur (Pur.pure a h)
-theorem PurE.bad {α} {P : α → Prop} (k : PanicKind) (m : String) (h1 : k ≠ .shape) (h2 : k ≠ .table) :
-    PurE env (bad k m : M α) P := PurE.of_pur (Pur.bad k m h1 h2)
+theorem PurE.bad {α} {P : α → Prop} (k : PanicKind) (m : String) (h1 : k ≠ .shape) (h2 : k ≠ .table) (h3 : k ≠ .lexical) :
+    PurE env (bad k m : M α) P := PurE.of_pur (Pur.bad k m h1 h2 h3)
 theorem purE_bind_pure {α β} {Q : β → Prop} {a : α} {f : α → M β} (h : PurE env (f a) Q) : PurE env (pure a >>= f) Q :=
   PurE.bind (PurE.pure (P := fun x => x = a) a rfl) (fun x hx => by subst hx; exact h)
 
@@ -271,7 +281,7 @@ macro "tstep" : tactic => `(tactic| first
   | with_reducible refine Pur.bind (Pur.mapM _ (P := fun _ => True) _ (fun _ _ => ?_)) (fun _ _ => ?_)
   | with_reducible exact pur_simpleType _ _ _ _
   | with_reducible refine Pur.pure _ ?_
-  | (with_reducible refine Pur.bad _ _ ?_ ?_) <;> decide)
+  | (with_reducible refine Pur.bad _ _ ?_ ?_ ?_) <;> decide)
 
 macro "tauto'" : tactic => `(tactic| (repeat (any_goals (first | tstep | split))) <;> (try tgood))
 
@@ -291,9 +301,9 @@ macro "tstepE" : tactic => `(tactic| first
   | with_reducible refine purE_bind_pure ?_
   | with_reducible refine PurE.bind (PurE.of_pur (Pur.mapM _ (P := fun _ => True) _ (fun _ _ => ?_))) (fun _ _ => ?_)
   | with_reducible refine PurE.pure _ ?_
-  | (with_reducible refine PurE.bad _ _ ?_ ?_) <;> decide
+  | (with_reducible refine PurE.bad _ _ ?_ ?_ ?_) <;> decide
   | with_reducible refine Pur.pure _ ?_
-  | (with_reducible refine Pur.bad _ _ ?_ ?_) <;> decide)
+  | (with_reducible refine Pur.bad _ _ ?_ ?_ ?_) <;> decide)
 
 macro "tautoE" : tactic => `(tactic| (repeat (any_goals (first | tstepE | split))) <;> (try tgood))
 
@@ -438,13 +448,21 @@ theorem tact_37 (env : Env) (E : Prop) (args : List ArgV)
   simp only []
   tauto'
 
-set_option maxRecDepth 10000 in
+/-- `Direction`: a DIRECTION token is `in`, `out` or `inout`, so the `unreachable!()` is not reached -/
 theorem tact_38 (env : Env) (E : Prop) (args : List ArgV)
-    (h : ArgsTyped E [.triple .loc, .triple (.opt .tok), .triple .loc] args) :
+    (h : ArgsTyped E [.triple .loc, .triple (.opt .dtok), .triple .loc] args) :
     Pur env (userAction 38 args) (HasTy E .dir) := by
   unfold userAction
   simp only []
-  tauto'
+  refine Pur.bind (pur_locAt h rfl) (fun p1 _ => ?_)
+  refine Pur.bind (pur_locAt h rfl) (fun p2 _ => ?_)
+  refine Pur.bind (pur_nth h rfl) (fun v hv => ?_)
+  refine Pur.bind (pur_optTokStr_d hv) (fun o ho => ?_)
+  rcases ho with rfl | rfl | rfl | rfl
+  · exact Pur.pure _ trivial
+  · exact Pur.bind (pur_mkRange _ _) (fun _ _ => Pur.pure _ trivial)
+  · exact Pur.bind (pur_mkRange _ _) (fun _ _ => Pur.pure _ trivial)
+  · exact Pur.bind (pur_mkRange _ _) (fun _ _ => Pur.pure _ trivial)
 
 set_option maxRecDepth 10000 in
 theorem tact_39 (env : Env) (E : Prop) (args : List ArgV)
